@@ -209,7 +209,10 @@ class Check:
             tr = translate.run(REPO, LEAN / "Gen", only)
             self.extra["translator"] = tr
             for item, st in tr.items():
-                if not st.get("ok"):
+                # an item of another property that fails shows up through the build of the theorems
+                # that consume it; only the property's own items break its check directly
+                own = st.get("props") is None or self.prop in (st.get("props") or [])
+                if not st.get("ok") and own:
                     self.broken.append({"what": f"translator {item}", "detail": st.get("error", "")})
             cmd = ["lake", "build", *targets]
             self.checker_cmds.append("cd lean && " + " ".join(cmd))
